@@ -48,7 +48,7 @@ func Verif_C08_work_json() {
 	cfg := map[string]interface{}{"command": "work", "subcommand": sub}
 	switch verifapi.Choose(4) {
 	case 0:
-		cfg["unitid"] = []string{"unit0013", "unit0014", "nope", "..", ".", "", "../precious", "unit0013/status", "a/b",
+		cfg["unitid"] = []string{known.ID(), "unit0014", "nope", "..", ".", "", "../precious", known.ID() + "/status", "a/b",
 			known.ID() + "/status/x", known.ID() + "/status/..", string(make([]byte, 256))}[verifapi.Choose(12)]
 	case 1:
 		if v, ok := verifAnyJSONValue(1 + verifapi.Choose(6)); ok {
@@ -56,7 +56,7 @@ func Verif_C08_work_json() {
 		}
 	case 2: // absent
 	case 3:
-		cfg["unitid"] = "unit0013"
+		cfg["unitid"] = known.ID()
 		if v, ok := verifAnyJSONValue(verifapi.Choose(7)); ok {
 			cfg["startpos"] = v
 		}
@@ -98,7 +98,7 @@ func Verif_C08_work_string() {
 	known, err := wk.w.AllocateUnit("cmd", map[string]string{})
 	verifapi.Assert("allocated", err == nil)
 	known.UpdateBasicStatus(WorkStateFailed, "done", 0)
-	words := []string{"", "status", "list", "results", "release", "cancel", "submit", "unit0015", "nope", "..", "-1", "7", "x", "A", "cmd"}
+	words := []string{"", "status", "list", "results", "release", "cancel", "submit", known.ID(), "nope", "..", "-1", "7", "x", "A", "cmd"}
 	n := verifapi.Choose(4 + verifapi.Tier())
 	line := ""
 	for i := 0; i < n; i++ {
